@@ -31,6 +31,32 @@ type State struct {
 	calls map[string][][]Val // results of the calls made so far on this path, by callee name (for origin())
 	defers []*ast.DeferStmt
 	decs  map[*Term]bool // path-condition entries that are branch decisions (if / switch), as opposed to assumed facts
+	frozen map[*Cell]bool // structs whose address was stored in an adt interface: immutable from then on
+}
+
+func unionFrozen(sts ...*State) map[*Cell]bool {
+	var out map[*Cell]bool
+	for _, s := range sts {
+		if len(s.frozen) == 0 {
+			continue
+		}
+		if out == nil {
+			out = map[*Cell]bool{}
+		}
+		for k := range s.frozen {
+			out[k] = true
+		}
+	}
+	return out
+}
+
+func (s *State) freeze(c *Cell) {
+	n := make(map[*Cell]bool, len(s.frozen)+1)
+	for k := range s.frozen {
+		n[k] = true
+	}
+	n[c] = true
+	s.frozen = n
 }
 
 // decide records a branch decision: like assume, and remembers which entries are decisions (used to merge the
@@ -76,7 +102,7 @@ func (ex *Exec) mergeMany(sts []*State, basePC int) *State {
 		}
 		guards[i] = And(ds...)
 	}
-	m := &State{store: map[*Cell]Val{}, ctl: ctlNormal, defers: sts[0].defers, decs: sts[0].decs}
+	m := &State{store: map[*Cell]Val{}, ctl: ctlNormal, defers: sts[0].defers, decs: sts[0].decs, frozen: unionFrozen(sts...)}
 	m.pc = append(m.pc, sts[0].pc[:basePC]...)
 	if o := Or(guards...); !o.IsTrue() {
 		m.pc = append(m.pc, o)
@@ -139,7 +165,7 @@ func (ex *Exec) mergeMany(sts []*State, basePC int) *State {
 
 func (s *State) clone() *State {
 	n := &State{store: make(map[*Cell]Val, len(s.store)), pc: append([]*Term{}, s.pc...), ok: s.ok, ctl: s.ctl, ret: s.ret,
-		defers: append([]*ast.DeferStmt{}, s.defers...), decs: s.decs}
+		defers: append([]*ast.DeferStmt{}, s.defers...), decs: s.decs, frozen: s.frozen}
 	for k, v := range s.store {
 		n.store[k] = v
 	}
@@ -201,6 +227,7 @@ type Exec struct {
 	paramRoot map[*Cell]paramRootInfo
 	inlineDepth int
 	caseIdx int // 0: no case split; k>0: k-th case; -1: exhaustiveness obligation only
+	selfNode   map[*Cell]*Term // receivers that are datatype values (adt.go)
 	ghostCells map[string]*Cell // contract-visible ghost variables (e.g. `iter` of a range loop without key)
 	rootFields map[types.Object]map[string]bool
 	keepRootFields bool
@@ -305,6 +332,9 @@ func (ex *Exec) freshVal(st *State, k *Kind, hint string) Val {
 		g := map[string]Val{}
 		for _, d := range ghostDecls[k.Name] {
 			g[d.Name] = ex.freshVal(st, ghostKind(d.Kind), hint+"."+d.Name)
+		}
+		if a := adtOf[k.Name]; a != nil {
+			return &ObjV{K: k, ID: Fresh(hint, a.Sort), Ghost: g}
 		}
 		return &ObjV{K: k, ID: Fresh(hint, SInt), Ghost: g}
 	case "slice":
@@ -502,6 +532,9 @@ func (ex *Exec) storeRef(st *State, r *RefV, nv Val, node ast.Node) {
 		}
 	}
 	ex.frameCheck(r, false, node)
+	if st.frozen[r.Cell] {
+		ex.fail("immutable", ex.site("immutable"), "store to "+r.Cell.name+" after its address was stored in an interface modelled as an immutable datatype value", node)
+	}
 	old := st.store[r.Cell]
 	// alias propagation for in-place slice element stores
 	var aliasTag int
@@ -730,6 +763,9 @@ func (ex *Exec) run() (err error) {
 		}
 	}
 	bindParam(sig.Recv())
+	if sig.Recv() != nil {
+		ex.unboxReceiver(st, sig.Recv())
+	}
 	for i := 0; i < sig.Params().Len(); i++ {
 		bindParam(sig.Params().At(i))
 	}
@@ -1406,7 +1442,7 @@ func (ex *Exec) execIf(st *State, n *ast.IfStmt) []*State {
 }
 
 func (ex *Exec) mergeStates(c *Term, a, b *State, basePC int) *State {
-	m := &State{store: map[*Cell]Val{}, ctl: ctlNormal, decs: a.decs, defers: a.defers}
+	m := &State{store: map[*Cell]Val{}, ctl: ctlNormal, decs: a.decs, defers: a.defers, frozen: unionFrozen(a, b)}
 	m.pc = append(m.pc, a.pc[:basePC]...)
 	var ea, eb []*Term
 	for _, t := range a.pc[basePC:] {
